@@ -55,6 +55,11 @@ def input? : Sexp → Option SInput
   | .list [fl, ws, mk, intr, mf, tb, sched] => do
       some { flavour := ← flavour? fl, workers := ← list? worker? ws, mkRaise := ← opt? nat? mk, intr := ← opt? nat? intr,
              mfaults := ← list? nat? mf, tb := ← nat? tb, sched := ← list? nat? sched }
+  -- an eighth component carries *realisation hints* for the harness (route codes None / '', empty test id, a pass-through
+  -- wrap_result): they do not change what the model predicts
+  | .list [fl, ws, mk, intr, mf, tb, sched, _hints] => do
+      some { flavour := ← flavour? fl, workers := ← list? worker? ws, mkRaise := ← opt? nat? mk, intr := ← opt? nat? intr,
+             mfaults := ← list? nat? mf, tb := ← nat? tb, sched := ← list? nat? sched }
   | _ => none
 
 def sev? : Sexp → Option SEv
